@@ -125,7 +125,7 @@ def cases(tier):
     # binary64 kernel: decimal coordinates (n/10, n/100) touching the die border
     for axis in ('x', 'y'):
         for bits, scale in ((8, 10), (8, 100)) if tier == 'quick' else ((10, 10), (10, 100)):
-            cs.append(dict(kind='fp-border', axis=axis, bits=bits, scale=scale, slow=(200 if tier == 'quick' else 1500)))
+            cs.append(dict(kind='fp-border', axis=axis, bits=bits, scale=scale, slow=(500 if tier == 'quick' else 1500)))
     if tier == 'thorough':
         for nb, regs in ((4, [(0, 1), (1, 2), (3, 4)]), (3, [(0, 3), (1, 2), (1, 2)]), (5, [(1, 2), (2, 4), (3, 5)])):
             for bands in (('lower', 'middle', 'upper'), ('lowhalf', 'uphalf', 'uphalf'), ('full', 'full', 'full')):
@@ -138,7 +138,7 @@ def cases(tier):
     return cs
 
 
-OPTS = {'quick': dict(max_paths=30000, budget_s=250), 'thorough': dict(max_paths=300000, budget_s=2400)}
+OPTS = {'quick': dict(max_paths=30000, budget_s=900), 'thorough': dict(max_paths=300000, budget_s=2400)}
 
 
 def ctx_class(case):
